@@ -1,1 +1,595 @@
-From PV Require Import Base.Num Base.FVal Base.Tape Model.Operators Model.RealOps.
+(* Proofs about Model/RealOps.v, for ALL tapes (i.e. whatever the unmodelled float arithmetic
+   produced and whatever the random stream did):
+   - every variable a real-valued operator writes is [clip candidate lb ub] (UM: the
+     uniform(lb,ub) draw), hence inside its bounds and not NaN (Base/FVal.clip_range_x);
+   - flag discipline per operator;
+   - SBX treats its parents symmetrically on one-variable problems (and the pre-fix test
+     `dx > EPSILON` does not: Example);
+   - PCX / UNDX meet no zero divisor (exact rationals, repaired orthogonalize), and the
+     pre-fix orthogonalize divides by zero on parents 1/4, 3/4, 1/2 (Example). *)
+From Coq Require Import ZArith QArith Qabs Qreduction Bool List Lia Lqa Permutation.
+From PV Require Import Base.Num Base.Order Base.FVal Base.Tape Model.Operators Model.RealOps Proofs.OperatorsProofs.
+Import ListNotations.
+Open Scope res_scope.
+
+Section RealProofs.
+  Variable E : Type.
+  Variable P : Type.
+  Notation var := (var E).
+  Notation vtype := (vtype E).
+  Notation sol := (sol E P).
+  Notation valid_var := (valid_var E).
+  Notation wf_type := (wf_type E).
+  Notation valid_vars := (valid_vars E).
+  Notation valid_sol := (valid_sol E P).
+  Notation copied_from := (copied_from E P).
+
+  Lemma clip_valid lb ub c : wf_type (TReal lb ub) -> valid_var (TReal lb ub) (VReal (clip c (FX lb) (FX ub))).
+  Proof. intro W. simpl in *. now apply clip_in_bounds. Qed.
+
+  (* ================================================================ PM / UM / UniformMutation / NonUniformMutation *)
+  Lemma pm_step_valid pe : step_valid E (pm_step E pe).
+  Proof.
+    intros ty v t v' t1 W V H. destruct ty as [lb ub| | |]; simpl in H; try (inversion H; fail).
+    destruct (get_unif t) as [[u t0]|]; simpl in H; [|discriminate].
+    destruct (xleb u pe); [|inversion H].
+    destruct v; try discriminate.
+    destruct (get_unif t0) as [[u2 t2]|]; simpl in H; [|discriminate].
+    destruct (get_val t2) as [[c t3]|]; simpl in H; [|discriminate].
+    inversion H; subst. now apply clip_valid.
+  Qed.
+
+  Theorem pm_valid pr ts fresh p t c f t' :
+    Forall wf_type ts -> valid_sol ts p -> pm E P pr ts fresh p t = Ok (c, f, t') ->
+    valid_sol ts c /\ copied_from c p /\ sid c = fresh /\ f = S fresh.
+  Proof.
+    intros WF V H. unfold pm in H.
+    destruct (eff_prob pr (count_real E ts)) as [pe|]; simpl in H; [|discriminate].
+    eapply mutation_of_valid; eauto using pm_step_valid.
+  Qed.
+
+  Lemma um_step_valid praw : step_valid E (um_step E praw).
+  Proof.
+    intros ty v t v' t1 W V H. destruct ty as [lb ub| | |]; simpl in H; try (inversion H; fail).
+    destruct (get_unif t) as [[u t0]|]; simpl in H; [|discriminate].
+    destruct (xleb u praw); [|inversion H].
+    destruct v; try discriminate.
+    destruct (get_unif_in lb ub t0) as [[q t2]|] eqn:Eq; simpl in H; [|discriminate].
+    inversion H; subst. apply get_unif_in_ok in Eq. destruct Eq as (_ & A & B).
+    simpl. unfold in_bounds, in_boundsb. now rewrite A, B.
+  Qed.
+
+  (* UM writes the uniform(lb, ub) draw itself: in bounds by the range contract of the primitive *)
+  Theorem um_valid pr ts fresh p t c f t' :
+    Forall wf_type ts -> valid_sol ts p -> um E P pr ts fresh p t = Ok (c, f, t') ->
+    valid_sol ts c /\ copied_from c p /\ sid c = fresh /\ f = S fresh.
+  Proof.
+    intros WF V H. unfold um in H.
+    destruct (eff_prob pr (count_real E ts)) as [pe|]; simpl in H; [|discriminate].
+    eapply mutation_of_valid; eauto using um_step_valid.
+  Qed.
+
+  Lemma uniform_mutation_step_valid p : step_valid E (uniform_mutation_step E p).
+  Proof.
+    intros ty v t v' t1 W V H. unfold uniform_mutation_step in H.
+    destruct (get_unif t) as [[u t0]|]; simpl in H; [|discriminate].
+    destruct (xleb u p); [|inversion H].
+    destruct ty as [lb ub| | |]; try discriminate. destruct v; try discriminate.
+    destruct (get_unif t0) as [[u2 t2]|]; simpl in H; [|discriminate].
+    destruct (get_val t2) as [[c t3]|]; simpl in H; [|discriminate].
+    inversion H; subst. now apply clip_valid.
+  Qed.
+
+  Theorem uniform_mutation_valid p ts fresh s t c f t' :
+    Forall wf_type ts -> valid_sol ts s -> uniform_mutation E P p ts fresh s t = Ok (c, f, t') ->
+    valid_sol ts c /\ copied_from c s /\ sid c = fresh /\ f = S fresh.
+  Proof. intros. eapply mutation_of_valid; eauto using uniform_mutation_step_valid. Qed.
+
+  Lemma non_uniform_mutation_step_valid p : step_valid E (non_uniform_mutation_step E p).
+  Proof.
+    intros ty v t v' t1 W V H. unfold non_uniform_mutation_step in H.
+    destruct (get_unif t) as [[u t0]|]; simpl in H; [|discriminate].
+    destruct (xleb u p); [|inversion H].
+    destruct ty as [lb ub| | |]; try discriminate. destruct v; try discriminate.
+    destruct (get_bit t0) as [[b t2]|]; simpl in H; [|discriminate].
+    destruct (get_unif t2) as [[u2 t3]|]; simpl in H; [|discriminate].
+    destruct (get_val t3) as [[c t4]|]; simpl in H; [|discriminate].
+    inversion H; subst. now apply clip_valid.
+  Qed.
+
+  Theorem non_uniform_mutation_valid p ts fresh s t c f t' :
+    Forall wf_type ts -> valid_sol ts s -> non_uniform_mutation E P p ts fresh s t = Ok (c, f, t') ->
+    valid_sol ts c /\ copied_from c s /\ sid c = fresh /\ f = S fresh.
+  Proof. intros. eapply mutation_of_valid; eauto using non_uniform_mutation_step_valid. Qed.
+
+  (* ================================================================ SBX *)
+  Lemma sbx_step_gen_valid test : xstep_valid E (sbx_step_gen E test).
+  Proof.
+    intros ty a b t a' b' t1 W Va Vb H. destruct ty as [lb ub| | |]; simpl in H; try (inversion H; fail).
+    destruct (get_unif t) as [[u t0]|]; simpl in H; [|discriminate].
+    destruct (xleb u half); [|inversion H].
+    destruct a as [[|[|x1|]]| | |]; try discriminate. destruct b as [[|[|x2|]]| | |]; try discriminate.
+    destruct (test x1 x2).
+    - destruct (get_unif t0) as [[u2 t2]|]; simpl in H; [|discriminate].
+      destruct (get_bit t2) as [[bt t3]|]; simpl in H; [|discriminate].
+      destruct (get_val t3) as [[c1 t4]|]; simpl in H; [|discriminate].
+      destruct (get_val t4) as [[c2 t5]|]; simpl in H; [|discriminate].
+      inversion H; subst. split; now apply clip_valid.
+    - inversion H; subst. auto.
+  Qed.
+
+  Theorem sbx_valid pr ts fresh p1 p2 t cs f t' :
+    Forall wf_type ts -> valid_sol ts p1 -> valid_sol ts p2 ->
+    sbx E P pr ts fresh [p1; p2] t = Ok (cs, f, t') -> two_children_ok E P ts fresh p1 p2 cs f.
+  Proof. intros. eapply guarded_crossover_of_valid; eauto using sbx_step_gen_valid. Qed.
+
+  Lemma sbx_test_sym x1 x2 : sbx_test x1 x2 = sbx_test x2 x1.
+  Proof. unfold sbx_test. now rewrite Qabs_Qminus. Qed.
+
+  (* SBX on a one-variable problem: exchanging the parents under the same tape gives the same
+     multiset of offspring values *)
+  Theorem sbx_symmetric_1var pr lb ub fresh p1 p2 x1 x2 t cs f t' :
+    vars p1 = [VReal (FX (Fin x1))] -> vars p2 = [VReal (FX (Fin x2))] ->
+    sbx E P pr [TReal lb ub] fresh [p1; p2] t = Ok (cs, f, t') ->
+    exists ds, sbx E P pr [TReal lb ub] fresh [p2; p1] t = Ok (ds, f, t') /\
+               Permutation (map vars cs) (map vars ds).
+  Proof.
+    intros V1 V2 H. unfold sbx, guarded_crossover_of in *. simpl in *.
+    destruct (get_unif t) as [[u t0]|]; simpl in *; [|discriminate].
+    destruct (xleb u pr).
+    - rewrite V1, V2 in *. simpl in *. unfold sbx_step, sbx_step_gen in *.
+      destruct (get_unif t0) as [[u1 t1]|]; simpl in *; [|discriminate].
+      destruct (xleb u1 half).
+      + rewrite (sbx_test_sym x2 x1). destruct (sbx_test x1 x2).
+        * destruct (get_unif t1) as [[u2 t2]|]; simpl in *; [|discriminate].
+          destruct (get_bit t2) as [[bt t3]|]; simpl in *; [|discriminate].
+          destruct (get_val t3) as [[c1 t4]|]; simpl in *; [|discriminate].
+          destruct (get_val t4) as [[c2 t5]|]; simpl in *; [|discriminate].
+          inversion H; subst. eexists. split; [reflexivity|]. simpl. reflexivity.
+        * simpl in *. inversion H; subst. eexists. split; [reflexivity|]. simpl. apply perm_swap.
+      + simpl in *. inversion H; subst. eexists. split; [reflexivity|]. simpl. apply perm_swap.
+    - inversion H; subst. eexists. split; [reflexivity|]. simpl. rewrite V1, V2. apply perm_swap.
+  Qed.
+
+  (* ================================================================ DE *)
+  Lemma de_loop_valid cr jrand p1 p2 p3 : forall ts vs j t vs' w t',
+    Forall wf_type ts -> valid_vars ts vs ->
+    de_loop E cr jrand p1 p2 p3 ts vs j t = Ok (vs', w, t') ->
+    valid_vars ts vs' /\ (w = false -> vs' = vs).
+  Proof.
+    induction ts as [|ty ts IH]; intros vs j t vs' w t' WF V H.
+    - simpl in H. inversion H; subst. auto.
+    - inversion V as [|? v ? vr Hv Hr]; subst. inversion WF as [|? ? Wty Wts]; subst.
+      cbn [de_loop] in H.
+      destruct (get_unif t) as [[u t1]|]; cbn [bind] in H; [|discriminate].
+      match type of H with bind ?X _ = _ => destruct X as [[o t2]|] eqn:Eo end; cbn [bind] in H; [|discriminate].
+      destruct (de_loop E cr jrand p1 p2 p3 ts vr (S j) t2) as [[[vs2 w2] t3]|] eqn:El; cbn [bind] in H; [|discriminate].
+      inversion H; subst; clear H.
+      destruct (IH _ _ _ _ _ _ Wts Hr El) as [V2 F2].
+      assert (Vo : match o with Some v' => valid_var ty v' | None => True end).
+      { destruct (xleb u cr || Nat.eqb j jrand); [|inversion Eo; subst; exact I].
+        destruct (nth_res p1 j); cbn [bind] in Eo; [|discriminate].
+        destruct (nth_res p2 j); cbn [bind] in Eo; [|discriminate].
+        destruct (nth_res p3 j); cbn [bind] in Eo; [|discriminate].
+        destruct (is_real E a && is_real E a0 && is_real E a1); [|discriminate].
+        destruct ty as [lb ub| | |]; try discriminate.
+        destruct (get_val t1) as [[y ty']|]; cbn [bind] in Eo; [|discriminate].
+        inversion Eo; subst. now apply clip_valid. }
+      split.
+      + constructor; auto. destruct o; auto.
+      + destruct o; simpl; [discriminate|]. intro W. now rewrite (F2 W).
+  Qed.
+
+  Theorem de_valid cr ts fresh ps t cs f t' p0 :
+    Forall wf_type ts -> nth_error ps 0 = Some p0 -> valid_sol ts p0 ->
+    de E P cr ts fresh ps t = Ok (cs, f, t') ->
+    exists c, cs = [c] /\ valid_sol ts c /\ copied_from c p0 /\ sid c = fresh.
+  Proof.
+    intros WF H0 V H. unfold de in H. unfold nth_res in H at 1. rewrite H0 in H. cbn [bind] in H.
+    destruct (get_idx (length ts) t) as [[jr t1]|]; cbn [bind] in H; [|discriminate].
+    destruct (nth_res ps 1) as [p1|]; cbn [bind] in H; [|discriminate].
+    destruct (nth_res ps 2) as [p2|]; cbn [bind] in H; [|discriminate].
+    destruct (nth_res ps 3) as [p3|]; cbn [bind] in H; [|discriminate].
+    destruct (de_loop E cr jr (vars p1) (vars p2) (vars p3) ts (vars p0) 0 t1) as [[[vs w] t2]|] eqn:El;
+      cbn [bind] in H; [|discriminate].
+    inversion H; subst.
+    destruct (de_loop_valid _ _ _ _ _ _ _ _ _ _ _ _ WF V El) as [V' F'].
+    eexists. split; [reflexivity|]. split; [exact V'|]. split; [now apply copied_from_mk_child|reflexivity].
+  Qed.
+
+  (* ================================================================ PCX / UNDX / SPX: every variable through clip *)
+  Lemma clip_all_valid : forall ts t vs t', Forall wf_type ts -> clip_all E ts t = Ok (vs, t') -> valid_vars ts vs.
+  Proof.
+    induction ts as [|ty ts IH]; intros t vs t' WF H; simpl in H.
+    - inversion H; subst. constructor.
+    - inversion WF as [|? ? Wty Wts]; subst. destruct ty as [lb ub| | |]; try discriminate.
+      destruct (get_val t) as [[c t1]|]; simpl in H; [|discriminate].
+      destruct (clip_all E ts t1) as [[l t2]|] eqn:El; simpl in H; [|discriminate].
+      inversion H; subst. constructor; [now apply clip_valid|]. eapply IH; eauto.
+  Qed.
+
+  (* offspring of the multi-parent operators: valid, marked not evaluated, payload of a parent *)
+  Definition fresh_children (ts : list vtype) (ps cs : list sol) : Prop :=
+    Forall (fun c => valid_sol ts c /\ evaluated c = false /\ exists p, In p ps /\ payload c = payload p) cs.
+
+  Lemma pcx_one_child skip ts fresh ps t c t' : Forall wf_type ts ->
+    pcx_one E P skip ts fresh ps t = Ok (c, t') ->
+    valid_sol ts c /\ evaluated c = false /\ exists p, In p ps /\ payload c = payload p.
+  Proof.
+    intros WF H. unfold pcx_one in H.
+    destruct (nth_res ps 0); cbn [bind] in H; [|discriminate].
+    destruct (qvecs_of E P ps) as [x|]; cbn [bind] in H; [|discriminate].
+    destruct (centroid x (length ts)) as [g|]; cbn [bind] in H; [|discriminate].
+    destruct (nth_res x (length ps - 1)) as [xl|]; cbn [bind] in H; [|discriminate].
+    destruct (pcx_basis skip g (firstn (length ps - 1) x) [vsub xl g] t) as [[e_eta t1]|]; cbn [bind] in H; [|discriminate].
+    destruct (qdiv 1 (inject_Z (Z.of_nat (length ps - 1)))); cbn [bind] in H; [|discriminate].
+    destruct (get_gauss t1) as [[g1 t2]|]; cbn [bind] in H; [|discriminate].
+    destruct (get_gauss t2) as [[g2 t3]|]; cbn [bind] in H; [|discriminate].
+    destruct (nth_res ps (length ps - 1)) as [pl|] eqn:El; cbn [bind] in H; [|discriminate].
+    destruct (clip_all E ts t3) as [[vs t4]|] eqn:Ec; cbn [bind] in H; [|discriminate].
+    inversion H; subst. split; [|split; [reflexivity|]].
+    - unfold valid_sol, OperatorsProofs.valid_sol. simpl. eapply clip_all_valid; eauto.
+    - exists pl. split; [|reflexivity]. apply nth_res_ok in El. eapply nth_error_In; eauto.
+  Qed.
+
+  Theorem pcx_valid skip ts : Forall wf_type ts -> forall noff fresh ps t cs f t',
+    pcx_loop E P skip ts noff fresh ps t = Ok (cs, f, t') -> fresh_children ts ps cs.
+  Proof.
+    intros WF. induction noff as [|m IH]; intros fresh ps t cs f t' H; cbn [pcx_loop] in H.
+    - inversion H; subst. constructor.
+    - destruct (get_idx (length ps) t) as [[index t1]|]; cbn [bind] in H; [|discriminate].
+      destruct (nth_res ps index) as [pi|] eqn:Ei; cbn [bind] in H; [|discriminate].
+      destruct (nth_res ps (length ps - 1)) as [pl|] eqn:El; cbn [bind] in H; [|discriminate].
+      set (ps' := upd (length ps - 1) pi (upd index pl ps)) in *.
+      destruct (pcx_one E P skip ts fresh ps' t1) as [[c t2]|] eqn:Eo; cbn [bind] in H; [|discriminate].
+      destruct (pcx_loop E P skip ts m (S fresh) ps' t2) as [[[cs' f'] t3]|] eqn:Er; cbn [bind] in H; [|discriminate].
+      inversion H; subst; clear H.
+      assert (Inc : forall p, In p ps' -> In p ps).
+      { intros p Hp. unfold ps' in Hp. apply nth_res_ok in Ei, El.
+        apply upd_In in Hp. destruct Hp as [->|Hp]; [eapply nth_error_In; eauto|].
+        apply upd_In in Hp. destruct Hp as [->|Hp]; [eapply nth_error_In; eauto|auto]. }
+      constructor.
+      + destruct (pcx_one_child _ _ _ _ _ _ _ WF Eo) as (A & B & p & Hp & Ep). repeat split; auto. eauto.
+      + specialize (IH _ _ _ _ _ _ Er). unfold fresh_children in *. rewrite Forall_forall in *.
+        intros x Hx. destruct (IH x Hx) as (A & B & p & Hp & Ep). repeat split; auto. eauto.
+  Qed.
+
+  Lemma undx_one_child skip ts fresh ps t c t' : Forall wf_type ts ->
+    undx_one E P skip ts fresh ps t = Ok (c, t') ->
+    valid_sol ts c /\ evaluated c = false /\ exists p, In p ps /\ payload c = payload p.
+  Proof.
+    intros WF H. unfold undx_one in H.
+    destruct (nth_res ps 0); cbn [bind] in H; [|discriminate].
+    destruct (qvecs_of E P ps) as [x|]; cbn [bind] in H; [|discriminate].
+    destruct (centroid x (length ts)) as [g|]; cbn [bind] in H; [|discriminate].
+    destruct (undx_zeta skip g (firstn (length ps - 1) x) [] t) as [[e_zeta t1]|]; cbn [bind] in H; [|discriminate].
+    destruct (nth_res x (length ps - 1)) as [xl|]; cbn [bind] in H; [|discriminate].
+    destruct (get_nonneg t1) as [[D t2]|]; cbn [bind] in H; [|discriminate].
+    destruct (undx_eta skip (length ts) D (length ts - length e_zeta) [] t2) as [[e_eta t3]|]; cbn [bind] in H; [|discriminate].
+    destruct (get_gausses (length e_zeta) t3) as [[g1 t4]|]; cbn [bind] in H; [|discriminate].
+    destruct (get_gausses (length e_eta - 1) t4) as [[g2 t5]|]; cbn [bind] in H; [|discriminate].
+    destruct (nth_res ps (length ps - 1)) as [pl|] eqn:El; cbn [bind] in H; [|discriminate].
+    destruct (clip_all E ts t5) as [[vs t6]|] eqn:Ec; cbn [bind] in H; [|discriminate].
+    inversion H; subst. split; [|split; [reflexivity|]].
+    - unfold valid_sol, OperatorsProofs.valid_sol. simpl. eapply clip_all_valid; eauto.
+    - exists pl. split; [|reflexivity]. apply nth_res_ok in El. eapply nth_error_In; eauto.
+  Qed.
+
+  Theorem undx_valid skip ts : Forall wf_type ts -> forall noff fresh ps t cs f t',
+    undx_loop E P skip ts noff fresh ps t = Ok (cs, f, t') -> fresh_children ts ps cs.
+  Proof.
+    intros WF. induction noff as [|m IH]; intros fresh ps t cs f t' H; cbn [undx_loop] in H.
+    - inversion H; subst. constructor.
+    - destruct (undx_one E P skip ts fresh ps t) as [[c t1]|] eqn:Eo; cbn [bind] in H; [|discriminate].
+      destruct (undx_loop E P skip ts m (S fresh) ps t1) as [[[cs' f'] t2]|] eqn:Er; cbn [bind] in H; [|discriminate].
+      inversion H; subst; clear H. constructor; [eapply undx_one_child; eauto|eapply IH; eauto].
+  Qed.
+
+  Lemma spx_loop_valid ts plast n : Forall wf_type ts -> forall noff fresh t cs f t',
+    spx_loop E P ts plast n noff fresh t = Ok (cs, f, t') ->
+    Forall (fun c => valid_sol ts c /\ evaluated c = false /\ payload c = payload plast) cs.
+  Proof.
+    intros WF. induction noff as [|m IH]; intros fresh t cs f t' H; cbn [spx_loop] in H.
+    - inversion H; subst. constructor.
+    - destruct (get_unifs (n - 1) t) as [[us t1]|]; cbn [bind] in H; [|discriminate].
+      destruct (clip_all E ts t1) as [[vs t2]|] eqn:Ec; cbn [bind] in H; [|discriminate].
+      destruct (spx_loop E P ts plast n m (S fresh) t2) as [[[cs' f'] t3]|] eqn:Er; cbn [bind] in H; [|discriminate].
+      inversion H; subst; clear H. constructor; [|eapply IH; eauto].
+      split; [|split; reflexivity]. unfold valid_sol. simpl. eapply clip_all_valid; eauto.
+  Qed.
+
+  Theorem spx_valid ts noff fresh ps t cs f t' : Forall wf_type ts ->
+    spx E P noff ts fresh ps t = Ok (cs, f, t') -> fresh_children ts ps cs.
+  Proof.
+    intros WF H. unfold spx in H.
+    destruct (nth_res ps 0); cbn [bind] in H; [|discriminate].
+    destruct (qvecs_of E P ps) as [x|]; cbn [bind] in H; [|discriminate].
+    destruct (centroid x (length ts)); cbn [bind] in H; [|discriminate].
+    destruct (nth_res ps (length ps - 1)) as [plast|] eqn:El; cbn [bind] in H; [|discriminate].
+    pose proof (spx_loop_valid ts plast (length ps) WF _ _ _ _ _ _ H) as X.
+    unfold fresh_children. rewrite Forall_forall in *. intros c Hc. destruct (X c Hc) as (A & B & C).
+    repeat split; auto. exists plast. split; auto. apply nth_res_ok in El. eapply nth_error_In; eauto.
+  Qed.
+End RealProofs.
+
+(* ================================================================ division safety of PCX / UNDX
+   (vector algebra over exact Q) *)
+Local Open Scope Q_scope.
+
+Definition div_safe {A} (r : res A) : Prop :=
+  match r with Err EZeroDiv => False | Err EValue => False | _ => True end.
+
+Lemma div_safe_bind {A B} (r : res A) (f : A -> res B) :
+  div_safe r -> (forall a, r = Ok a -> div_safe (f a)) -> div_safe (bind r f).
+Proof. destruct r; simpl; auto. Qed.
+
+Fixpoint sumsq (v : qvec) : Q := match v with [] => 0 | c :: r => c * c + sumsq r end.
+
+Lemma sumsq_nonneg v : 0 <= sumsq v.
+Proof. induction v as [|c r IH]; simpl; [lra|]. nra. Qed.
+
+Lemma dot_from_self : forall v acc, dot_from acc v v == acc + sumsq v.
+Proof.
+  induction v as [|c r IH]; intro acc; simpl.
+  - ring.
+  - rewrite IH. setoid_rewrite (Qred_correct (acc + c * c)). ring.
+Qed.
+
+Lemma EPSILON_pos : 0 < EPSILON.
+Proof. reflexivity. Qed.
+
+(* a vector that fails is_zero has a component of magnitude >= EPSILON, so dot(v,v) > 0 *)
+Lemma is_zero_false_sumsq v : is_zero v = false -> 0 < sumsq v.
+Proof.
+  induction v as [|c r IH]; simpl; [discriminate|].
+  intro H. apply andb_false_iff in H. pose proof (sumsq_nonneg r) as N. destruct H as [H|H].
+  - apply Qltb_false in H. pose proof EPSILON_pos as Ep.
+    assert (0 < c * c).
+    { destruct (Qlt_le_dec c 0) as [L|L].
+      - nra.
+      - rewrite Qabs_pos in H by exact L. nra. }
+    lra.
+  - specialize (IH H). nra.
+Qed.
+
+Lemma is_zero_false_dot v : is_zero v = false -> Qeq_bool (dot v v) 0 = false.
+Proof.
+  intro H. destruct (Qeq_bool (dot v v) 0) eqn:Eb; [|reflexivity].
+  apply Qeq_bool_iff in Eb. unfold dot in Eb. rewrite dot_from_self in Eb.
+  pose proof (is_zero_false_sumsq v H). lra.
+Qed.
+
+Lemma project_ok u v : is_zero v = false -> exists p, project u v = Ok p.
+Proof.
+  intro H. unfold project, qdiv. rewrite (is_zero_false_dot v H). simpl. eauto.
+Qed.
+
+(* the repaired orthogonalize never divides by zero — whatever vectors it is given *)
+Lemma orthogonalize_total : forall vs u, exists u', orthogonalize u vs = Ok u'.
+Proof.
+  unfold orthogonalize. induction vs as [|w r IH]; intro u; cbn [orthogonalize_gen]; [eauto|].
+  destruct (is_zero w) eqn:Ez; cbn [andb]; [apply IH|].
+  destruct (project_ok u w Ez) as [p Ep]. rewrite Ep. cbn [bind]. apply IH.
+Qed.
+
+Lemma normalize_div_safe u t : is_zero u = false -> div_safe (normalize u t).
+Proof.
+  intro H. unfold normalize. rewrite H. unfold qdiv. rewrite (is_zero_false_dot u H). simpl.
+  destruct t as [|[q0|n0|b0|q0|p0|l0|v0] r]; simpl; auto. destruct v0 as [|[|q1|]]; simpl; auto. destruct (Qltb 0 q1); simpl; auto.
+Qed.
+
+Lemma get_val_div_safe t : div_safe (get_val t).
+Proof. destruct t as [|[] r]; simpl; auto. Qed.
+Lemma get_nonneg_div_safe t : div_safe (get_nonneg t).
+Proof. destruct t as [|[q0|n0|b0|q0|p0|l0|v0] r]; simpl; auto. destruct v0 as [|[|q1|]]; simpl; auto. destruct (Qle_bool 0 q1); simpl; auto. Qed.
+Lemma get_gauss_div_safe t : div_safe (get_gauss t).
+Proof. destruct t as [|[] r]; simpl; auto. Qed.
+Lemma get_gausses_div_safe : forall n t, div_safe (get_gausses n t).
+Proof.
+  induction n as [|n IH]; intro t; simpl; auto.
+  apply div_safe_bind; [apply get_gauss_div_safe|]. intros [q t1] _.
+  apply div_safe_bind; [apply IH|]. intros [l t2] _. exact I.
+Qed.
+Lemma finite_all_div_safe : forall l, div_safe (finite_all l).
+Proof.
+  induction l as [|[|q|] r IH]; simpl; auto.
+  apply div_safe_bind; auto. intros a _. exact I.
+Qed.
+
+Section DivSafe.
+  Variable E : Type.
+  Variable P : Type.
+  Notation sol := (sol E P).
+
+  Lemma qvec_of_div_safe : forall vs, div_safe (qvec_of E vs).
+  Proof.
+    induction vs as [|v r IH]; simpl; auto.
+    destruct v as [[|[|q|]]| | |]; simpl; auto.
+    apply div_safe_bind; auto. intros a _. exact I.
+  Qed.
+  Lemma qvecs_of_div_safe : forall ps : list sol, div_safe (qvecs_of E P ps).
+  Proof.
+    induction ps as [|p r IH]; simpl; auto.
+    apply div_safe_bind; [apply qvec_of_div_safe|]. intros a _.
+    apply div_safe_bind; auto. intros b _. exact I.
+  Qed.
+  Lemma clip_all_div_safe : forall ts t, div_safe (clip_all E ts t).
+  Proof.
+    induction ts as [|ty ts IH]; intro t; simpl; auto.
+    destruct ty; simpl; auto.
+    apply div_safe_bind; [apply get_val_div_safe|]. intros [c t1] _.
+    apply div_safe_bind; [apply IH|]. intros [l t2] _. exact I.
+  Qed.
+  Lemma nth_res_div_safe {A} (l : list A) i : div_safe (nth_res l i).
+  Proof. unfold nth_res. destruct (nth_error l i); simpl; auto. Qed.
+
+  Lemma qvecs_of_length : forall (ps : list sol) x, qvecs_of E P ps = Ok x -> length x = length ps.
+  Proof.
+    induction ps as [|p r IH]; intros x H; simpl in H.
+    - inversion H; reflexivity.
+    - destruct (qvec_of E (vars p)); cbn [bind] in H; [|discriminate].
+      destruct (qvecs_of E P r) eqn:Er; cbn [bind] in H; [|discriminate].
+      inversion H; subst. simpl. f_equal. now apply IH.
+  Qed.
+
+  Lemma centroid_div_safe x n : x <> [] -> div_safe (centroid x n).
+  Proof. intro H. unfold centroid. destruct x; [congruence|]. simpl. exact I. Qed.
+
+  Lemma pcx_basis_div_safe g : forall xs e_eta t, div_safe (pcx_basis true g xs e_eta t).
+  Proof.
+    induction xs as [|x r IH]; intros e_eta t; cbn [pcx_basis]; [exact I|].
+    destruct (negb (is_zero (vsub x g))); [|apply IH].
+    destruct (orthogonalize_total e_eta (vsub x g)) as [e Ee]. unfold orthogonalize in Ee. rewrite Ee. cbn [bind].
+    destruct (is_zero e) eqn:Ez; cbn [negb]; [apply IH|].
+    apply div_safe_bind; [apply get_val_div_safe|]. intros [m t1] _.
+    apply div_safe_bind; [now apply normalize_div_safe|]. intros [ne t2] _. apply IH.
+  Qed.
+
+  Lemma qdiv_nat_div_safe k : (1 <= k)%nat -> div_safe (qdiv 1 (inject_Z (Z.of_nat k))).
+  Proof.
+    intro H. unfold qdiv. destruct (Qeq_bool (inject_Z (Z.of_nat k)) 0) eqn:Eb; simpl; auto.
+    apply Qeq_bool_iff in Eb. unfold Qeq, inject_Z in Eb. simpl in Eb. lia.
+  Qed.
+
+  Lemma pcx_one_div_safe ts fresh ps t : (2 <= length ps)%nat -> div_safe (pcx_one E P true ts fresh ps t).
+  Proof.
+    intro L. unfold pcx_one.
+    apply div_safe_bind; [apply nth_res_div_safe|]. intros p0 _.
+    apply div_safe_bind; [apply qvecs_of_div_safe|]. intros x Ex.
+    apply div_safe_bind.
+    { apply centroid_div_safe. apply qvecs_of_length in Ex. destruct x; simpl in *; [lia|congruence]. }
+    intros g _.
+    apply div_safe_bind; [apply nth_res_div_safe|]. intros xl _.
+    apply div_safe_bind; [apply pcx_basis_div_safe|]. intros [e_eta t1] _.
+    apply div_safe_bind; [apply qdiv_nat_div_safe; lia|]. intros q _.
+    apply div_safe_bind; [apply get_gauss_div_safe|]. intros [g1 t2] _.
+    apply div_safe_bind; [apply get_gauss_div_safe|]. intros [g2 t3] _.
+    apply div_safe_bind; [apply nth_res_div_safe|]. intros pl _.
+    apply div_safe_bind; [apply clip_all_div_safe|]. intros [vs t4] _. exact I.
+  Qed.
+
+  Lemma get_idx_div_safe n t : (0 < n)%nat -> div_safe (get_idx n t).
+  Proof.
+    intro H. unfold get_idx. destruct n; [lia|]. destruct t as [|[] r]; simpl; auto.
+    destruct (Nat.ltb n0 (S n)); simpl; auto.
+  Qed.
+
+  (* PCX: with at least two parents — identical parents, the last parent at the centroid,
+     collinear parents included — no division by zero (dot(v,v) in project, k-1, the
+     magnitude in normalize, the k of the centroid) and no normalize of a zero vector,
+     for every number of offspring and every tape *)
+  Theorem pcx_division_safe ts : forall noff fresh ps t, (2 <= length ps)%nat ->
+    div_safe (pcx E P noff ts fresh ps t).
+  Proof.
+    unfold pcx. induction noff as [|m IH]; intros fresh ps t L; cbn [pcx_loop]; [exact I|].
+    apply div_safe_bind; [apply get_idx_div_safe; lia|]. intros [index t1] _.
+    apply div_safe_bind; [apply nth_res_div_safe|]. intros pi _.
+    apply div_safe_bind; [apply nth_res_div_safe|]. intros pl _.
+    assert (L' : (2 <= length (upd (length ps - 1) pi (upd index pl ps)))%nat) by (now rewrite !upd_length).
+    apply div_safe_bind; [now apply pcx_one_div_safe|]. intros [c t2] _.
+    apply div_safe_bind; [now apply IH|]. intros [[cs f] t3] _. exact I.
+  Qed.
+
+  Lemma undx_zeta_div_safe g : forall xs e_zeta t, div_safe (undx_zeta true g xs e_zeta t).
+  Proof.
+    induction xs as [|x r IH]; intros e_zeta t; cbn [undx_zeta]; [exact I|].
+    destruct (negb (is_zero (vsub x g))); [|apply IH].
+    apply div_safe_bind; [apply get_nonneg_div_safe|]. intros [dbar t1] _.
+    destruct (orthogonalize_total e_zeta (vsub x g)) as [e Ee]. unfold orthogonalize in Ee. rewrite Ee. cbn [bind].
+    destruct (is_zero e) eqn:Ez; cbn [negb]; [apply IH|].
+    apply div_safe_bind; [now apply normalize_div_safe|]. intros [ne t2] _. apply IH.
+  Qed.
+
+  Lemma undx_eta_div_safe n D : forall cnt e_eta t, div_safe (undx_eta true n D cnt e_eta t).
+  Proof.
+    induction cnt as [|c IH]; intros e_eta t; cbn [undx_eta]; [exact I|].
+    apply div_safe_bind; [apply get_gausses_div_safe|]. intros [gs t1] _.
+    apply div_safe_bind; [apply finite_all_div_safe|]. intros d _.
+    destruct (negb (is_zero d)); [|apply IH].
+    destruct (orthogonalize_total e_eta d) as [e Ee]. unfold orthogonalize in Ee. rewrite Ee. cbn [bind].
+    destruct (is_zero e) eqn:Ez; cbn [negb]; [apply IH|].
+    apply div_safe_bind; [now apply normalize_div_safe|]. intros [ne t2] _. apply IH.
+  Qed.
+
+  Lemma undx_one_div_safe ts fresh ps t : (1 <= length ps)%nat -> div_safe (undx_one E P true ts fresh ps t).
+  Proof.
+    intro L. unfold undx_one.
+    apply div_safe_bind; [apply nth_res_div_safe|]. intros p0 _.
+    apply div_safe_bind; [apply qvecs_of_div_safe|]. intros x Ex.
+    apply div_safe_bind.
+    { apply centroid_div_safe. apply qvecs_of_length in Ex. destruct x; simpl in *; [lia|congruence]. }
+    intros g _.
+    apply div_safe_bind; [apply undx_zeta_div_safe|]. intros [e_zeta t1] _.
+    apply div_safe_bind; [apply nth_res_div_safe|]. intros xl _.
+    apply div_safe_bind; [apply get_nonneg_div_safe|]. intros [D t2] _.
+    apply div_safe_bind; [apply undx_eta_div_safe|]. intros [e_eta t3] _.
+    apply div_safe_bind; [apply get_gausses_div_safe|]. intros [g1 t4] _.
+    apply div_safe_bind; [apply get_gausses_div_safe|]. intros [g2 t5] _.
+    apply div_safe_bind; [apply nth_res_div_safe|]. intros pl _.
+    apply div_safe_bind; [apply clip_all_div_safe|]. intros [vs t6] _. exact I.
+  Qed.
+
+  (* UNDX: the same, incl. D = 0 (identical parents / last parent at the centroid), where the
+     e_eta vectors are zero vectors and the repaired orthogonalize skips them *)
+  Theorem undx_division_safe ts : forall noff fresh ps t, (2 <= length ps)%nat ->
+    div_safe (undx E P noff ts fresh ps t).
+  Proof.
+    unfold undx. induction noff as [|m IH]; intros fresh ps t L; cbn [undx_loop]; [exact I|].
+    apply div_safe_bind; [apply undx_one_div_safe; lia|]. intros [c t1] _.
+    apply div_safe_bind; [now apply IH|]. intros [[cs f] t2] _. exact I.
+  Qed.
+End DivSafe.
+
+Local Close Scope Q_scope.
+
+(* ================================================================ concrete examples (E = Z, payload = unit) *)
+Definition ex_sol (i : nat) (q : Q) : sol Z unit := mkSol i [VReal (FX (Fin q))] true tt.
+Definition ex_types : list (vtype Z) := [TReal (FZ 0) (FZ 1)].
+Definition ex_val (q : Q) : draw := DVal (FX (Fin q)).
+
+(* the OLD orthogonalize (no is_zero skip) divides by zero on parents 1/4, 3/4, 1/2: the last
+   parent is the centroid, e_eta[0] is the zero vector, project divides by dot(v,v) = 0 *)
+Example pcx_old_divides_by_zero :
+  pcx_old Z unit 1 ex_types 3%nat [ex_sol 0 (1#4); ex_sol 1 (3#4); ex_sol 2 (1#2)] [DIdx 2] = Err EZeroDiv.
+Proof. vm_compute. reflexivity. Qed.
+
+(* the repaired code returns an offspring on the same parents (non-vacuity of pcx_division_safe) *)
+Example pcx_centroid_ok :
+  exists c f, pcx Z unit 1 ex_types 3%nat [ex_sol 0 (1#4); ex_sol 1 (3#4); ex_sol 2 (1#2)]
+                  [DIdx 2; ex_val (1#4); ex_val (1#4); DGauss (FZ 0); DGauss (FZ 0); ex_val (1#2)] = Ok ([c], f, [])
+              /\ vars c = [VReal (FX (Fin (1#2)))] /\ evaluated c = false.
+Proof. eexists _, _. vm_compute. repeat split. Qed.
+
+Definition ex_types2 : list (vtype Z) := [TReal (FZ 0) (FZ 1); TReal (FZ 0) (FZ 1)].
+Definition ex_sol2 (i : nat) (a b : Q) : sol Z unit := mkSol i [VReal (FX (Fin a)); VReal (FX (Fin b))] true tt.
+
+(* UNDX, identical parents (D = 0): old code divides by zero, repaired code returns *)
+Example undx_old_divides_by_zero :
+  undx_old Z unit 1 ex_types2 2%nat [ex_sol2 0 (1#2) (1#4); ex_sol2 1 (1#2) (1#4)]
+    [ex_val 0; DGauss (FZ 1); DGauss (FZ 0); ex_val 1; DGauss (FZ 0); DGauss (FZ 1)] = Err EZeroDiv.
+Proof. vm_compute. reflexivity. Qed.
+
+Example undx_identical_ok :
+  exists c f, undx Z unit 1 ex_types2 2%nat [ex_sol2 0 (1#2) (1#4); ex_sol2 1 (1#2) (1#4)]
+    [ex_val 0; DGauss (FZ 1); DGauss (FZ 0); ex_val 1; DGauss (FZ 0); DGauss (FZ 1); ex_val 1; DGauss (FZ 0);
+     ex_val (1#2); ex_val (1#4)] = Ok ([c], f, []) /\ evaluated c = false.
+Proof. eexists _, _. vm_compute. repeat split. Qed.
+
+(* SBX before fix dbd2833 (`dx = x2 - x1; if dx > EPSILON`) is NOT symmetric: parents (0.8, 0.2)
+   are returned unchanged, (0.2, 0.8) are recombined, under the same tape *)
+Definition sbx_tape : tape := [DUnif (FZ 0); DUnif (FZ 0); DUnif (F 1 (-1)); DBit false; ex_val (3#10); ex_val (6#10)].
+
+Example sbx_old_asymmetric :
+  map vars (match sbx_old Z unit (FZ 1) ex_types 2%nat [ex_sol 0 (4#5); ex_sol 1 (1#5)] sbx_tape with Ok (cs, _, _) => cs | _ => [] end)
+    = [[VReal (FX (Fin (4#5)))]; [VReal (FX (Fin (1#5)))]]
+  /\ map vars (match sbx_old Z unit (FZ 1) ex_types 2%nat [ex_sol 0 (1#5); ex_sol 1 (4#5)] sbx_tape with Ok (cs, _, _) => cs | _ => [] end)
+    = [[VReal (FX (Fin (3#10)))]; [VReal (FX (Fin (6#10)))]].
+Proof. split; vm_compute; reflexivity. Qed.
+
+(* the repaired SBX recombines both orders to the same offspring (non-vacuity of sbx_symmetric_1var) *)
+Example sbx_symmetric_example :
+  map vars (match sbx Z unit (FZ 1) ex_types 2%nat [ex_sol 0 (4#5); ex_sol 1 (1#5)] sbx_tape with Ok (cs, _, _) => cs | _ => [] end)
+  = map vars (match sbx Z unit (FZ 1) ex_types 2%nat [ex_sol 0 (1#5); ex_sol 1 (4#5)] sbx_tape with Ok (cs, _, _) => cs | _ => [] end)
+  /\ map vars (match sbx Z unit (FZ 1) ex_types 2%nat [ex_sol 0 (4#5); ex_sol 1 (1#5)] sbx_tape with Ok (cs, _, _) => cs | _ => [] end)
+     = [[VReal (FX (Fin (3#10)))]; [VReal (FX (Fin (6#10)))]].
+Proof. split; vm_compute; reflexivity. Qed.
